@@ -242,13 +242,19 @@ def main(ctx):
     base = open(os.path.join(tlc.SPEC_DIR, "Trig.cfg")).read()
     if ctx.quick:
         base = base.replace("MaxOps = 3", "MaxOps = 2")
-    else:
-        base = base.replace("WithScriptSet = FALSE", "WithScriptSet = TRUE")
     open(cfg, "w").write(base)
-    res = tlc.run("Trig", cfg, ctx.scratch, env={"FORMS": forms_path}, timeout=3000)
+    res = tlc.run("Trig", cfg, ctx.scratch, env={"FORMS": forms_path}, timeout=6000)
     if not res.ok:
         ctx.report({"clause": "model:" + res.violated}, "Trig.tla violates %s" % res.violated, {"cex": res.cex})
     ctx.add_tlc(res, "Trig(all forms, MaxOps=%d)" % (2 if ctx.quick else 3))
+    if not ctx.quick:
+        # script-issued operations (State.set refreshes notify_var_last eagerly) as a second, smaller exploration
+        cfg2 = os.path.join(ctx.scratch, "Trig_mc_script.cfg")
+        open(cfg2, "w").write(base.replace("MaxOps = 3", "MaxOps = 2").replace("WithScriptSet = FALSE", "WithScriptSet = TRUE"))
+        res2 = tlc.run("Trig", cfg2, ctx.scratch, env={"FORMS": forms_path}, timeout=6000)
+        if not res2.ok:
+            ctx.report({"clause": "model:" + res2.violated}, "Trig.tla (script sets) violates %s" % res2.violated, {"cex": res2.cex})
+        ctx.add_tlc(res2, "Trig(all forms, MaxOps=2, script-issued sets)")
     # witnesses: the antecedents are not vacuous (each must be violated)
     for wname in ("W_NoAmbiguity", "W_NoTwoRuns", "W_MayEqualsMust"):
         wcfg = os.path.join(ctx.scratch, "Trig_%s.cfg" % wname)
